@@ -86,6 +86,7 @@ def doc_valid(name, v) -> bool:
 VALUES = [True, False, None, 'auto', 'strict', 'star', 'call', 'left', 'right', 0, 1, 2, 'all', 'block', 'none', 'line', 'all+1', 'block-',
           'none+', '+2', 'bad', '', (), ('all',), ('line',), ('all', 'line'), ('line', 'all'), ('block+1', 'none-2'), (True, False), (1, 2, 3),
           'identifier', 'pos', 'kw_maybe', 'Auto', 'allx', ('all', 7), [1], '<', 'is not', 7, -3,
+          1.0, 0.0, 2.5, ('all', 1.0), (1.0, 'line'), b'auto', ('all', None), frozenset(), 'block+1.0',
           'all\n', 'block+1\n', ('block+1\n', 'line\n'), ('all', 'line+2\n'), 'auto\n', 'strict\n', ' all', 'left\n', 'pos\n']
 
 
